@@ -195,7 +195,7 @@ def run_program(prog: list[dict]) -> list[dict] | None:
         lines = []
         for s in prog:
             snap = None
-            if s["k"] in ("setitem", "aug", "uout"):
+            if s["k"] in ("setitem", "aug", "uout", "setshape"):
                 snap = {h: a.copy() for h, a in npx.H.items()}
             with np.errstate(all="ignore"):
                 e_np = _step(npx, s)
